@@ -264,7 +264,7 @@ fn decode_address(mut buf: Bytes) -> IoResult<Option<TargetAddress>> {
     if buf.is_empty() {
         return Ok(None);
     }
-    if buf.len() < 8 {
+    if buf.len() < 2 {
         return Err(IoError::new(ErrorKind::InvalidInput, "bad header"));
     }
     let tag = buf.get_u8();
